@@ -64,8 +64,9 @@ TEXT = {
          "nothingUnissuedBecomesLive on every transition of the fault families (each call index x error kind x error handler x response mode). On the "
          "code a failure is injected at every backend call of requests inside TLC-generated, scripted and random scenarios and each faulted step is "
          "judged by TLC against the same clauses.", "DESIGN.md 5 C18"),
- 'C20': ("Independence of clients on disjoint accounts as a TLC invariant over request-atomic steps; concurrent scripted clients on one "
-         "instance of the shipped default components under the Go race detector, transcripts compared with solo runs.", "DESIGN.md 5 C20"),
+ 'C20': ("Independence of clients on disjoint accounts as a TLC invariant over request-atomic steps; every schedule of two in-flight requests at "
+         "backend-call granularity enumerated by TLC (spec/Schedules.tla) and replayed deterministically on one real instance of the shipped default "
+         "components; concurrent scripted clients under the Go race detector; each client's observations compared with solo runs.", "DESIGN.md 5 C20"),
 }
 
 
